@@ -384,6 +384,8 @@ class Evaluator:
                     return base_len.add(b)
                 return b
             return bound(a.args[2], base_len).sub(bound(a.args[1], Rat.const(0)))
+        if a.name == "np.diff" and len(a.args) == 1:
+            return self.length_of(a.args[0]).sub(Rat.const(1))       # first differences: one value fewer
         if a.name == "rslice":
             first, stop = rslice_bounds(a, self.length_of(a.args[0]))
             return first.sub(stop)
@@ -623,7 +625,8 @@ class Frame:
                 nm_ = st.targets[0].id
                 self.ev.prealloc.pop((self.fi.qualname, nm_), None)
                 c_ = st.value
-                if isinstance(c_, ast.Call) and len(c_.args) == 1 and not c_.keywords and isinstance(v, Rat) and v.is_zero() and guard.kind == "true":
+                if isinstance(c_, ast.Call) and len(c_.args) == 1 and all(k_.arg == "dtype" for k_ in c_.keywords) and isinstance(v, Rat) and v.is_zero() \
+                        and guard.kind == "true":
                     r_ = self.ev.lk.resolve(self.mod, c_.func)
                     nm2_ = getattr(getattr(r_, "obj", None), "__name__", "") if r_ is not None and r_.kind == "dep" else ""
                     if nm2_ in ("zeros", "empty"):
